@@ -398,10 +398,12 @@ func (core *JApiCore) addRequest(d *directive.Directive) *jerr.JApiError {
 		}
 
 	case sn == notation.SchemaNotationRegex && typ == "" && d.BodyCoords.IsSet():
-		if s, err = catalog.NewExchangeRegexSchema(d.BodyCoords.Read()); err == nil {
+		var rs *catalog.ExchangeRegexSchema
+		if rs, err = catalog.NewExchangeRegexSchema(d.BodyCoords.Read()); err == nil {
 			// The regular expression have to be valid before it gets into the catalog.
-			err = s.Check()
+			err = rs.CheckWithExample()
 		}
+		s = rs
 		if err == nil {
 			err = core.catalog.AddRequestBody(s, bodyFormat, *d)
 		}
